@@ -8,6 +8,7 @@ CONSTANTS
     Tier = "quick"
     NanRule = "notconverged"
     FluxRule = "segment"
+    ScanNorm = "asked"
     Reporter = "contract"
     EmitOn = FALSE
 INIT Init
